@@ -128,7 +128,7 @@ def check(ctx, fx):
                           "limit/3) dominating it: %s" % texts[:4], where=where)
                 continue
             ctx.fail("R1", "can_parse: unclassified return `%s`" % txt[:60], "return value of unknown provenance", where=where)
-    ctx.floor("R1", nret, 10, "return statements in can_parse")
+    ctx.floor("R1", nret, 6, "return statements in can_parse")
 
     # ---- R2 ----
     mt = mf_ = None
